@@ -95,6 +95,7 @@ class SimSpec:
             "promoted_rounds": total(ok, "promoted_rounds"),
             "refused_rounds": total(ok, "refused_rounds"),
             "recovery_rounds": total(ok, "recoveries"),
+            "recoveries_accepted_at_the_prompt_of_show_status": total(ok, "prompted_recoveries"),
             "completed_runs": sum(1 for r in ok if r.get("complete")),
             "policies": hist(t["args"]["scen"]["policy"]["kind"] for t in tasks),
             "jobs_per_scenario": hist(len(t["args"]["scen"]["jobs"]) for t in tasks),
